@@ -261,7 +261,10 @@ static void case_binomial(Rng& rng, uint64_t index)
 		// n<=170: ratio of tabulated factorials, a few ulp.  n>170: exp(lnG(n+1)-lnG(k+1)-lnG(n-k+1)); the GammaLn clause allows each
 		// logarithm 64*eps*|lnG|, which is an absolute error of the exponent, so the propagated relative tolerance of the value is
 		// 64*eps*(sum of the three |lnG|) -- the same "few ulp of the logarithm" scale as the Gamma clause (DESIGN 5.4).
-		double tol = 64 * EPS * (1 + L);
+		// (n<=170: 32 eps, the quotient of three table entries that each carry the few-ulp error of their recurrence; the unchanged code
+		// reaches 4.4 eps.  Seeded change C06-r6m2 answered from the log-gamma formula, 3e-13, whenever the memo table was still short.)
+		double tol = 32 * EPS;
+		(void) L;
 		if(n > 170)
 			tol = 64 * EPS * (1 + std::lgamma(n + 1.0) + std::lgamma(k + 1.0) + std::lgamma(n - k + 1.0));
 		judge("binomial-vs-pascal-triangle", (double) (fabsl((ld) v - ref) / ref), tol, [&] { return J().i("n", n).i("k", k).d("C", v).d("ref", (double) ref); });
@@ -290,6 +293,80 @@ static void case_binomial(Rng& rng, uint64_t index)
 		mark_nontrivial();	 // within 1 of the factorial / log-gamma switch at n=170
 	if(n % 80 == 0)
 		sample(J().d("C(n,n/2)", row[n / 2]));
+}
+
+// Binomial coefficients asked for in a process whose Factorial memo table is in another state: nothing called before, only small
+// factorials, other binomials, or Gamma/GammaLn.  The value may not depend on that history beyond a few ulp (seeded change C06-r6m2).
+static void case_binomial_history(Rng& rng, uint64_t index)
+{
+	auto& T = pascal();
+	int hist = (int) (index % 5);
+	static const char* HN[] = {"nothing before", "Factorial of smaller arguments", "Binomial_Coefficient of smaller n", "Gamma and GammaLn", "Factorial(170) first"};
+	std::vector<std::pair<int, int>> q;
+	int nq = 4 + (int) rng.below(12);
+	for(int i = 0; i < nq; i++)
+	{
+		int n = rng.coin(0.8) ? (int) rng.irange(40, 170) : (int) rng.irange(0, 40);
+		if(index < 5 && i == 0)
+			n = 168;
+		int k = rng.coin(0.5) ? (int) rng.irange(std::max(0, n / 2 - 10), std::min(n, n / 2 + 10)) : (int) rng.irange(0, n);
+		if(index < 5 && i == 0)
+			k = 13;
+		q.push_back({n, k});
+	}
+	int nmin = 170;
+	for(auto& e : q)
+		nmin = std::min(nmin, e.first);
+	std::vector<double> pre;
+	for(int i = 0, m = (int) rng.below(6); i < m; i++)
+		pre.push_back(nmin > 0 ? (double) rng.below(nmin) : 0.0);
+	set_params(J().str("history", HN[hist]).vec("history_arguments", pre).i("n0", q[0].first).i("k0", q[0].second).i("requests", nq));
+	hash_param_u(index);
+	for(auto& e : q)
+		hash_param_u(e.first * 1000 + e.second);
+	Outcome o = run_isolated([&](const std::function<void(const std::string&)>& send) {
+		double sink = 0;
+		if(hist == 1)
+			for(double m : pre)
+				sink += Factorial((unsigned) m);
+		else if(hist == 2)
+			for(double m : pre)
+				sink += Binomial_Coefficient((int) m, (int) m / 2);
+		else if(hist == 3)
+			for(double m : pre)
+				sink += Gamma(m + 1.5) + GammaLn(m + 2.0);
+		else if(hist == 4)
+			sink += Factorial(170);
+		std::vector<double> v;
+		for(auto& e : q)
+			v.push_back(Binomial_Coefficient(e.first, e.second));
+		v.push_back(sink);
+		send(std::string((const char*) v.data(), v.size() * sizeof(double)));
+	});
+	if(o.kind == WATCHDOG)
+	{
+		inconclusive("watchdog on a Binomial_Coefficient history");
+		return;
+	}
+	if(!expect_return("binomial-history-returns", o))
+		return;
+	if(o.payload.size() != (q.size() + 1) * sizeof(double))
+	{
+		require("binomial-history-returns", false, [&] { return J().i("payload_bytes", (long long) o.payload.size()); }, "binomial-payload-size");
+		return;
+	}
+	std::vector<double> v(q.size() + 1);
+	memcpy(v.data(), o.payload.data(), o.payload.size());
+	for(size_t i = 0; i < q.size(); i++)
+	{
+		int n = q[i].first, k = q[i].second;
+		ld ref = T[n][k];
+		auto det = [&] { return J().str("history", HN[hist]).vec("history_arguments", pre).i("n", n).i("k", k).d("C", v[i]).d("ref", (double) ref); };
+		judge("binomial-vs-pascal-triangle-after-another-history", (double) (fabsl((ld) v[i] - ref) / ref), 32 * EPS, det);
+		require("binomial-integer-valued", std::isfinite(v[i]) && std::floor(v[i]) == v[i] && v[i] >= 1, det);
+	}
+	if(hist != 4)
+		mark_nontrivial();
 }
 
 // ------------------------------------------------------------------------------------------------------------------
@@ -422,6 +499,20 @@ static void case_pq_random(Rng& rng, uint64_t)
 		if(a <= 100)
 			a = 100.5;
 		x = std::max(0.0, (a - 1) + rng.sign() * 10 * std::sqrt(a) + rng.mag(1e-9, 3.0));
+		// exactly at an end of the window, where the remaining quadrature interval has no length (seeded change C06-r6m1: 0/0 in the weights
+		// there); hit on round grids whenever sqrt(a) is exact
+		if(rng.coin(0.35))
+		{
+			if(rng.coin())
+			{
+				double r = (double) rng.irange(11, 100) * (rng.coin() ? 1.0 : 0.5);
+				a		 = r * r;
+			}
+			double sg = rng.sign();
+			x		  = std::max(0.0, (a - 1.0) + sg * 10 * std::sqrt(a));
+			if(rng.coin(0.3))
+				x = (rng.coin() || x == 0) ? sp::next_up(x) : sp::next_down(x);
+		}
 	}
 	else if(f == 17)
 	{
@@ -436,6 +527,12 @@ static void case_pq_random(Rng& rng, uint64_t)
 		fam = "tiny a";
 		a	= rng.coin() ? rng.loguni(1e-6, 1e-2) : rng.loguni(1e-300, 1e-6);	  // "all a in (0, 1e4]": P is 1 - O(a), Q = O(a) (defect D30: P > 1, Q < 0)
 		x	= rng.coin(0.2) ? rng.loguni(1e-300, 1e-12) : rng.loguni(1e-12, 40.0);
+		// subnormal x: P(x,a) ~ x^a is far from 0 for small a (seeded change C06-r6m3 treated them as x = 0)
+		if(rng.coin(0.15))
+		{
+			a = rng.loguni(1e-7, 0.05);
+			x = rng.coin(0.2) ? 4.9406564584124654e-324 * (double) rng.irange(1, 1000) : rng.loguni(1e-323, 2.2250738585072014e-308);
+		}
 	}
 	else
 	{
@@ -489,7 +586,15 @@ static std::vector<std::pair<double, double>> grid_points()
 		g.push_back({a + 1.0 + 1e-9, a});
 		g.push_back({x_max(a), a});
 		g.push_back({1e-300, a});
+		g.push_back({1e-310, a});
+		g.push_back({4.9406564584124654e-324, a});
 		g.push_back({a * 1e-6, a});
+		if(a > 100)
+		{
+			g.push_back({(a - 1.0) + 10 * s, a});
+			g.push_back({std::max(0.0, (a - 1.0) - 10 * s), a});
+			g.push_back({a - 1.0, a});
+		}
 	}
 	return g;
 }
@@ -581,6 +686,7 @@ static void setup()
 	add_generator("gammaln", ctx().count(40000, 2000000), case_gammaln);
 	add_generator("factorial_orders", ctx().thorough ? 240 : 24, case_factorial);
 	add_generator("binomial_rows", NBIN + 1, case_binomial);
+	add_generator("binomial_histories", ctx().count(150, 3000), case_binomial_history);
 	add_generator("pq_grid", GRID.size(), case_pq_grid);
 	add_generator("pq_random", ctx().count(200000, 6000000), case_pq_random);
 	add_generator("inverse", ctx().count(40000, 1000000), case_inverse);
